@@ -147,6 +147,27 @@ fn native_v<V: Fv>(ctx: &Ctx, nkeys: usize, per_key: usize, rep: &mut Report) {
         let ki = job % keys.len();
         let k = &keys[ki];
         vh::set_sign_rng(None);
+        // message-size sequences in one thread: equal lengths back to back with different
+        // content, large then small (buffers kept between calls would mix messages up)
+        if job < 2 * keys.len() {
+            let lens = [70_000usize, 70_000, 65_496, 65_496, 10, 10, 0, 70_000, 1, 0];
+            for (qi, &l) in lens.iter().enumerate() {
+                let msg: Vec<u8> = (0..l).map(|x| (x * 7 + qi * 13 + job) as u8).collect();
+                rep.evaluations += 1;
+                match monitored(|| V::sign(&msg, &k.sk)) {
+                    Err(p) => rep.violation(&format!("panic:sign@{}", short_loc(&p.location)), p.message.clone(), json!({"variant": V::NAME, "key_seed": hex(&k.seed), "msg": format!("shape:len{}", l), "native": true})),
+                    Ok(sig) => {
+                        let sb = V::sig_to_bytes(&sig);
+                        let v1 = monitored(|| V::verify(&msg, &sig, &k.pk)).unwrap_or(false);
+                        let v2 = spec::verify_traced(&msg, &sb[1..41], &sb[41..], &hs[ki]).0;
+                        if !v1 || !v2 {
+                            rep.violation("sign:signature-rejected-in-a-message-size-sequence", format!("{}: message {} of the sequence {:?} (length {}): verify = {}, reference = {}", V::NAME, qi, lens, l, v1, v2), json!({"variant": V::NAME, "key_seed": hex(&k.seed), "msg": format!("shape:len{}", l), "native": true}));
+                        }
+                        rep.count("message_size_sequence_signatures", 1);
+                    }
+                }
+            }
+        }
         for i in 0..chunk {
             let msg = format!("native-{}-{}", job, i).into_bytes();
             vh::take_events();
